@@ -13,6 +13,7 @@ import struct
 import sys
 import tempfile
 import threading
+import time
 import zlib
 
 from rv import canary, gen, refcodec as rc, vnet
@@ -212,6 +213,11 @@ class RawClient(object):
     def answer(self, rng, vocab, m):
         c = rng.randrange(10)
         seq = m["seq"]
+        if rng.random() < .25:
+            # before answering, make the server dispatch another request of ours while it is waiting for this answer
+            self.seq += 1
+            h, boxed = gen_request(rng, self, vocab)
+            self.send(rc.MSG_REQUEST, self.seq, (h, boxed))
         handler = m.get("handler")
         if c < 5 and handler == rc.HANDLERS["INSPECT"]:
             methods = tuple((rng.choice(METHOD_NAMES), rng.choice([None, "doc", 5])) for _ in range(rng.randrange(0, 8)))
@@ -336,6 +342,8 @@ def gen_request(rng, cli, vocab):
     if h == "DEL":
         return H[h], T(obj(), val(rng.choice([1, 0, -1, 10 ** 9, "x", None])))
     if h == "INSPECT":
+        if rng.random() < .4:
+            return H[h], T(rng.choice([obj(), (rc.LABEL_REMOTE_REF, ("builtins.list", 5, rng.randrange(1, 99))), gen_boxed(rng, cli, vocab, 1)]))
         return H[h], val((gen_idpack(rng, cli, vocab),))
     if h == "BUFFITER":
         return H[h], T(obj(), val(rng.choice([1, 10, -1, 10 ** 12, "x"])))
@@ -460,7 +468,16 @@ def session(ctx, rng, idx, vocab_base):
             pass
         th.join(10)
     RefCountingColl.__getitem__ = orig_getitem
+    wedged = th.is_alive() and b._local_objects._lock.locked()
+    if wedged:
+        # state, not time: the transport is closed and every wait of the serving thread is bounded, yet the thread is still there
+        # and the lock of its table of lent objects is held - it is blocked on itself and will never end
+        time.sleep(3)
+        wedged = th.is_alive() and b._local_objects._lock.locked()
     wit = dict(session=idx)
+    if wedged:
+        ctx.violation("C07/serving-thread-wedged", "after the peer's messages the serving thread neither answered nor ended the connection: it still "
+                      "exists after its transport was closed and holds the lock of the connection's table of lent objects (blocked on itself)", wit)
     # ---- verdicts
     sent = net.raw("B->A")
     for s, tag in SECRETS.items():
@@ -515,10 +532,11 @@ def session(ctx, rng, idx, vocab_base):
         ctx.violation("C07/sibling-connection-broken", "a well-behaved connection to the same service stopped working (%s)" % (why,), wit)
     del sib_item
     sib.close()
-    try:
-        b.close()
-    except Exception:
-        pass
+    if not wedged:            # close() would block on the same lock for ever
+        try:
+            b.close()
+        except Exception:
+            pass
     if server_exc:
         ctx.count("server_thread_ended_with_" + type(server_exc[0]).__name__)
     return nmsg
